@@ -29,6 +29,9 @@ FIRST_TWO = {
     "Alternate": ("alternate1", "alternate2"), "Mention": ("specificEntity", "generalEntity"),
     "Membership": ("collection", "entity"),
 }
+FORMALS_OF = {P + tn: fs for tn, fs in RELATIONS.values()}
+FORMALS_OF[P + "Activity"] = ("startTime", "endTime")
+ARG_NAMES = machine.PROV_REF_LOCALS | machine.TIME_ATTRS
 _counter = [0, 1]
 
 
@@ -81,6 +84,13 @@ def rdf_filter(doc):
                     names.append(v[1])
                 if v[0] in ("float", "other") or (v[0] == "lit" and v[3] is None):
                     return "R9-value-kind"
+            own = FORMALS_OF.get(t, ())
+            for a in d:
+                if a.startswith(P) and a[len(P):] in ARG_NAMES and a[len(P):] not in own:
+                    # PROV-O names the arguments per relation class (the starter of a Start is prov:hadActivity,
+                    # the activity of a Generation prov:activity ...): an argument name on a record kind that
+                    # does not have that argument has no predicate of its own
+                    return "R10-prov-argument-name-foreign-to-the-record-kind"
             if t in ELEMENT:
                 for v in d.get(P + "type", []):
                     if v[0] == "qn" and v[1] in ELEMENT:
